@@ -238,6 +238,20 @@ PROPS = {
             dict(test="TestC02Prop", kind="rapid", checks={Q: 60, T: 2500}, shards=16),
         ],
     ),
+    "C03": dict(
+        pkg="c03", level="exploration",
+        technique="stateful property-based testing (rapid) over the pair-verify message alphabet at handler level with 0..3 stored pairings, forged messages built by the reference controller; oracle reads the connection's session (encrypted session installed or not) after every message",
+        level_text=("Generated sequences of start variants (valid, key of length 0/1/31/33, no key, unknown method) and finish variants (genuine, wrong key for a stored name, stale or reordered signature material, replay, unknown name, the accessory's own name, sealed under zero/random key or wrong nonce, shorter than a tag, garbage, empty signature) on 1..2 connections. "
+                    "After every message the connection's session must be encrypted iff the message was a genuine finish on an exchange opened by an accepted start on that connection (or it already was); every other finish must be answered with an error. Genuine finishes must succeed; the accessory's M2 signature is verified on every accepted start."),
+        level_note="Trusted: refctl's X25519/HKDF/Ed25519 usage; the observation that session.Decrypter() is non-nil exactly when an encrypted session is installed. Handler panics are counted (C13 judges them). The wire-level consequence (ciphertext under attacker-derived keys is not served) is exercised by C01.",
+        rule=("rapid histories of 1..10 messages over 29 message kinds, random key seeds, 0..3 stored controllers, 1..2 connections, state-biased generator. Non-trivial: at least one finish variant sent after an accepted start. Distinct by (seed, stored, history)."),
+        assumptions=["the adversary owns no long-term secret key of a stored controller"],
+        essential_classes=["finish-genuine:verified/stored=1", "finish-wrong-key/stored=1", "finish-accessory-name/stored=0", "finish-seal-zero-key(no-exchange)/stored=1", "finish-replayed/stored=2", "start-keylen-31", "regress"],
+        jobs=[
+            dict(test="TestC03Regress", kind="plain"),
+            dict(test="TestC03Prop", kind="rapid", checks={Q: 1000, T: 30000}, shards=16),
+        ],
+    ),
 }
 
 # reasons for properties not claimed yet (kept current while the framework is being built)
